@@ -360,9 +360,9 @@ def find_label(labels, kind, v, tol):
         if v[0] != "n":
             raise Undecided()
         if not labels:
-            # TODO(defect): nearest-label access on an empty axis raises ValueError (np.argmin of an empty sequence)
-            # where the statement asks for IndexError; any exception is accepted here until this is decided
-            raise Demands(None)
+            # no label at all is within the tolerance of an empty axis: "a label that is not on the axis raises IndexError"
+            # (used to be ValueError: np.argmin of an empty sequence)
+            raise Demands("index")
         x = _fr(v)
         dist = [abs(_fr(l) - x) for l in labels]
         m = min(dist)
